@@ -545,6 +545,23 @@ theorem hist_points_self_consistent (tp : Temporality) (steps : List Step) (s : 
   intro s' r hr1 kv hkv
   exact (key steps s hs hr r hr1 kv hkv).2
 
+/-- Sum of instruments that do not collect one (follow-up, F40).  The model's output is a function of the aggregator
+state only — there is no destination memory in it — so a point of a `noSum` histogram or exponential histogram carries
+Sum = 0 whatever the history and whatever was collected before, by construction (`histPV`).  That the implementation's
+recycled destination points agree with this (F40, repaired by resetting the field) is NOT a consequence of any theorem:
+it is an observation-only clause, tied on every run by the reused-ResourceMetrics harness (the reported Sum and the
+Min/Max field are compared with the model / the reference extrema; mutants revert-F40-*). -/
+theorem nosum_points_report_zero_sum (h : Hist) (hn : h.noSum = true) (tp : Temporality) (t : Nat) :
+    (∀ dt pts, ((Agg.hist h).collect tp t).2 = some (dt, pts) → ∀ p ∈ pts, ∃ c cs, p.val = PV.hist c 0 cs) ∧
+    (∀ dt pts, ((Agg.expo h).collect tp t).2 = some (dt, pts) → ∀ p ∈ pts, ∃ c cs, p.val = PV.hist c 0 cs) := by
+  constructor <;>
+  · intro dt pts hc p hp
+    simp only [Agg.collect, Option.some.injEq, Prod.mk.injEq] at hc
+    obtain ⟨_, rfl⟩ := hc
+    simp only [List.mem_map] at hp
+    obtain ⟨q, _, rfl⟩ := hp
+    exact ⟨q.val.count, q.val.counts, by simp [histPV, hn]⟩
+
 /-- non-vacuity: a failing callback script between two cycles; the data are those of the history without it -/
 example :
     let is : List InstCfg := [⟨false, .obsCounter, .dflt, true⟩, ⟨false, .histogram, .expo, false⟩]
